@@ -34,6 +34,12 @@ impl Tier {
     }
 }
 
+/// sanitizer passes (Miri / memcheck) set VERIF_SCALE_DIV: generators then keep payloads small
+pub fn small_mode() -> bool {
+    static SMALL: std::sync::OnceLock<bool> = std::sync::OnceLock::new();
+    *SMALL.get_or_init(|| std::env::var("VERIF_SCALE_DIV").ok().and_then(|s| s.parse::<u64>().ok()).map_or(false, |d| d > 1))
+}
+
 pub type CaseFn = fn(&mut Ctx, &mut Rng, u64);
 
 pub struct Gen {
